@@ -1117,6 +1117,12 @@ class StmtMixin(CallMixin):
             if isinstance(v.ty, Opt):
                 self.oblige(st, "none", "await", z3.Not(T.opt_is_none(v)))
                 v = T.opt_val(v)
+            for expr in getattr(self.c, "shared_", []):
+                # a task cancelled while it awaits a future cancels that future: never one that other tasks share
+                sv = self.spec_eval(expr, st, old=self.entry)
+                same = (z3.And(z3.Not(T.opt_is_none(sv)), T.opt_val(sv).t == v.t) if isinstance(sv.ty, Opt) else sv.t == v.t)
+                self.oblige(st, "await", "cancelling-this-task-cannot-cancel-the-shared-future:" + expr, z3.Not(same),
+                            getattr(node, "lineno", self.cur_line))
             self.yield_point(st, node)
             state = self.fut_state(st, v)
             st.assume(state != T.intval(0).t)
